@@ -350,12 +350,23 @@ def index_items(toks, cfg, file, lo=0, hi=None, impl_header="", impl_item=None, 
                 out.append(it)
             i = e; continue
         # struct / enum / const / static / type
-        e = stmt_end(toks, j, hi)
         body_open = None
         if kw in ("struct", "enum"):
+            # generics may contain commas: go to the body first
             k = name_i
-            while k < e and toks[k].text not in ("{", ";", "("): k += 1
-            if k < e and toks[k].text == "{": body_open = k
+            while k < hi and toks[k].text not in ("{", ";", "("): k += 1
+            if toks[k].text == "{":
+                body_open = k
+                e = match_close(toks, k) + 1
+            elif toks[k].text == "(":
+                e = match_close(toks, k) + 1
+                k2 = next_sig(toks, e)
+                while k2 < hi and toks[k2].text != ";": k2 += 1     # optional where clause
+                e = k2 + 1
+            else:
+                e = k + 1
+        else:
+            e = stmt_end(toks, j, hi)
         if active:
             it = Item(kw, name, impl_header, toks, attrs_start, start, body_open, e, file)
             it.impl_item = impl_item
